@@ -118,52 +118,69 @@ Hll4 , Hll6 , Hll8 , }
 
 
 // =====================================================================================================================
-// the per-mode parsers, by contract: each is a (deterministic) function of the payload after the 8 header bytes and of the header fields
-// it is handed; what they compute is the subject of units hll_codec8 / hll_codec_coupons (Array4: not yet under contract)
+// the per-mode parsers, by contract.  REFINEMENT MAPPING (tools/linkprove.py): for each parser T this unit speaks of
+//     T_accepts(payload, header fields)        a sufficient condition for Ok
+//     T_parsed(result, payload, header fields) what an Ok result is (fields read, rejections, invariant clauses)
+// and leaves both UNINTERPRETED; the units that verify the real bodies (hll_codec4, hll_codec8, hll_codec_coupons) DEFINE the same
+// names as the conjunction of the clauses they prove (C13.hll4.* / C13.hll6.* / C13.hll8.* / C13.list.* / C13.set.* and the C14 ones),
+// so each stub below is implied by the proved contract.  (Before: `r.ok() == T_parse(..)` with an uninterpreted FUNCTION T_parse, i.e.
+// determinism of the whole result including float fields, which no codec unit states.)
+// The arrays are opaque model types here; Array4's parser takes the header's lgArr byte as a ghost argument, as in hll_codec4
+// (the real function does not receive it; the format spec needs it for the updatable aux table).
 // =====================================================================================================================
 #[verifier::external_body] struct Array4 { x: u8 }
 #[verifier::external_body] struct Array6 { x: u8 }
 #[verifier::external_body] struct Array8 { x: u8 }
 #[verifier::external_body] struct List { x: u8 }
 #[verifier::external_body] struct HashSet { x: u8 }
-uninterp spec fn array4_parse(p: Seq<u8>, cur_min: u8, lg_k: u8, compact: bool, ooo: bool) -> Option<Array4>;
-uninterp spec fn array6_parse(p: Seq<u8>, lg_k: u8, compact: bool, ooo: bool) -> Option<Array6>;
-uninterp spec fn array8_parse(p: Seq<u8>, lg_k: u8, compact: bool, ooo: bool) -> Option<Array8>;
-uninterp spec fn list_parse(p: Seq<u8>, lg_arr: usize, count: usize, empty: bool, compact: bool) -> Option<List>;
-uninterp spec fn set_parse(p: Seq<u8>, lg_arr: usize, compact: bool) -> Option<HashSet>;
+uninterp spec fn array4_accepts(p: Seq<u8>, cur_min: u8, lg_k: u8, compact: bool, ooo: bool, lg_arr: u8) -> bool;
+uninterp spec fn array4_parsed(a: Array4, p: Seq<u8>, cur_min: u8, lg_k: u8, compact: bool, ooo: bool, lg_arr: u8) -> bool;
+uninterp spec fn array6_accepts(p: Seq<u8>, lg_k: u8, compact: bool, ooo: bool) -> bool;
+uninterp spec fn array6_parsed(a: Array6, p: Seq<u8>, lg_k: u8, compact: bool, ooo: bool) -> bool;
+uninterp spec fn array8_accepts(p: Seq<u8>, lg_k: u8, compact: bool, ooo: bool) -> bool;
+uninterp spec fn array8_parsed(a: Array8, p: Seq<u8>, lg_k: u8, compact: bool, ooo: bool) -> bool;
+uninterp spec fn list_accepts(p: Seq<u8>, lg_arr: usize, count: usize, empty: bool, compact: bool) -> bool;
+uninterp spec fn list_parsed(a: List, p: Seq<u8>, lg_arr: usize, count: usize, empty: bool, compact: bool) -> bool;
+uninterp spec fn set_accepts(p: Seq<u8>, lg_arr: usize, compact: bool) -> bool;
+uninterp spec fn set_parsed(a: HashSet, p: Seq<u8>, lg_arr: usize, compact: bool) -> bool;
 impl Array4 {
     #[verifier::external_body]
-    fn deserialize(mut cursor: SketchSlice, cur_min: u8, lg_config_k: u8, _compact: bool, ooo: bool,) -> (r: Result<Self, Error>)
+    fn deserialize(mut cursor: SketchSlice, cur_min: u8, lg_config_k: u8, _compact: bool, ooo: bool, Ghost(lg_arr): Ghost<u8>,) -> (r: Result<Self, Error>)
       requires 4 <= lg_config_k <= 21
-      ensures r.ok() == array4_parse(cursor.rem(), cur_min, lg_config_k, _compact, ooo)
+      ensures array4_accepts(cursor.rem(), cur_min, lg_config_k, _compact, ooo, lg_arr) ==> r is Ok,
+        r matches Ok(a) ==> array4_parsed(a, cursor.rem(), cur_min, lg_config_k, _compact, ooo, lg_arr),
     { unimplemented!() }
 }
 impl Array6 {
     #[verifier::external_body]
     fn deserialize(mut cursor: SketchSlice, lg_config_k: u8, _compact: bool, ooo: bool,) -> (r: Result<Self, Error>)
       requires 4 <= lg_config_k <= 21
-      ensures r.ok() == array6_parse(cursor.rem(), lg_config_k, _compact, ooo)
+      ensures array6_accepts(cursor.rem(), lg_config_k, _compact, ooo) ==> r is Ok,
+        r matches Ok(a) ==> array6_parsed(a, cursor.rem(), lg_config_k, _compact, ooo),
     { unimplemented!() }
 }
 impl Array8 {
     #[verifier::external_body]
     fn deserialize(mut cursor: SketchSlice, lg_config_k: u8, _compact: bool, ooo: bool,) -> (r: Result<Self, Error>)
       requires 4 <= lg_config_k <= 21
-      ensures r.ok() == array8_parse(cursor.rem(), lg_config_k, _compact, ooo)
+      ensures array8_accepts(cursor.rem(), lg_config_k, _compact, ooo) ==> r is Ok,
+        r matches Ok(a) ==> array8_parsed(a, cursor.rem(), lg_config_k, _compact, ooo),
     { unimplemented!() }
 }
 impl List {
     #[verifier::external_body]
     fn deserialize(mut cursor: SketchSlice, lg_arr: usize, coupon_count: usize, empty: bool, compact: bool,) -> (r: Result<Self, Error>)
       requires lg_arr <= 255, coupon_count <= 255
-      ensures r.ok() == list_parse(cursor.rem(), lg_arr, coupon_count, empty, compact)
+      ensures list_accepts(cursor.rem(), lg_arr, coupon_count, empty, compact) ==> r is Ok,
+        r matches Ok(a) ==> list_parsed(a, cursor.rem(), lg_arr, coupon_count, empty, compact),
     { unimplemented!() }
 }
 impl HashSet {
     #[verifier::external_body]
     fn deserialize(mut cursor: SketchSlice, lg_arr: usize, compact: bool,) -> (r: Result<Self, Error>)
       requires lg_arr <= 255
-      ensures r.ok() == set_parse(cursor.rem(), lg_arr, compact)
+      ensures set_accepts(cursor.rem(), lg_arr, compact) ==> r is Ok,
+        r matches Ok(a) ==> set_parsed(a, cursor.rem(), lg_arr, compact),
     { unimplemented!() }
 }
 // `r.map(Mode::ArrayN)` (enum constructor passed as a function: language leaf)
@@ -196,23 +213,34 @@ spec fn hdr_tgt(b: Seq<u8>) -> HllType { if (b[7] >> 2) & 3 == 0 { HllType::Hll4
 spec fn hdr_empty(b: Seq<u8>) -> bool { b[5] & 4 != 0 }
 spec fn hdr_compact(b: Seq<u8>) -> bool { b[5] & 8 != 0 }
 spec fn hdr_ooo(b: Seq<u8>) -> bool { b[5] & 16 != 0 }
-// the mode the header selects, with the per-mode parser applied to the payload
-spec fn dispatch(b: Seq<u8>) -> Option<Mode> {
+// the mode the header selects: the per-mode parser, applied to the payload after the 8 header bytes with the header fields it is due
+// (List: lgArr byte 4, count byte 6, EMPTY and COMPACT flags; Set: lgArr, COMPACT; arrays: lgK byte 3, COMPACT and OUT_OF_ORDER flags,
+// Array4 also curMin byte 6), accepts ...
+spec fn dispatch_accepts(b: Seq<u8>) -> bool {
     let p = b.skip(8); let m = b[7] & 3; let t = (b[7] >> 2) & 3;
-    if m == 0 { match list_parse(p, b[4] as usize, b[6] as usize, hdr_empty(b), hdr_compact(b)) { Some(list) => Some(Mode::List { list, hll_type: hdr_tgt(b) }), None => None } }
-    else if m == 1 { match set_parse(p, b[4] as usize, hdr_compact(b)) { Some(set) => Some(Mode::Set { set, hll_type: hdr_tgt(b) }), None => None } }
-    else if t == 0 { match array4_parse(p, b[6], b[3], hdr_compact(b), hdr_ooo(b)) { Some(a) => Some(Mode::Array4(a)), None => None } }
-    else if t == 1 { match array6_parse(p, b[3], hdr_compact(b), hdr_ooo(b)) { Some(a) => Some(Mode::Array6(a)), None => None } }
-    else { match array8_parse(p, b[3], hdr_compact(b), hdr_ooo(b)) { Some(a) => Some(Mode::Array8(a)), None => None } }
+    if m == 0 { list_accepts(p, b[4] as usize, b[6] as usize, hdr_empty(b), hdr_compact(b)) }
+    else if m == 1 { set_accepts(p, b[4] as usize, hdr_compact(b)) }
+    else if t == 0 { array4_accepts(p, b[6], b[3], hdr_compact(b), hdr_ooo(b), b[4]) }
+    else if t == 1 { array6_accepts(p, b[3], hdr_compact(b), hdr_ooo(b)) }
+    else { array8_accepts(p, b[3], hdr_compact(b), hdr_ooo(b)) }
+}
+// ... and `mode` is what it returned, in the variant of the header's current mode, with the header's target type
+spec fn dispatch_parsed(b: Seq<u8>, mode: Mode) -> bool {
+    let p = b.skip(8); let m = b[7] & 3; let t = (b[7] >> 2) & 3;
+    if m == 0 { mode matches Mode::List { list, hll_type } && hll_type == hdr_tgt(b) && list_parsed(list, p, b[4] as usize, b[6] as usize, hdr_empty(b), hdr_compact(b)) }
+    else if m == 1 { mode matches Mode::Set { set, hll_type } && hll_type == hdr_tgt(b) && set_parsed(set, p, b[4] as usize, hdr_compact(b)) }
+    else if t == 0 { mode matches Mode::Array4(a) && array4_parsed(a, p, b[6], b[3], hdr_compact(b), hdr_ooo(b), b[4]) }
+    else if t == 1 { mode matches Mode::Array6(a) && array6_parsed(a, p, b[3], hdr_compact(b), hdr_ooo(b)) }
+    else { mode matches Mode::Array8(a) && array8_parsed(a, p, b[3], hdr_compact(b), hdr_ooo(b)) }
 }
 
 impl HllSketch {
     fn deserialize ( bytes : & [ u8 ] ) -> ( r : Result < HllSketch , Error > ) ensures
 /*@C14.hll.hdr.rejects_short*/ bytes @ . len ( ) < 8 ==> r is Err ,
 /*@C14.hll.hdr.validates*/ r is Ok ==> hdr_ok ( bytes @ ) ,
-/*@C13.hll.hdr.accepts*/ hdr_ok ( bytes @ ) && dispatch ( bytes @ ) is Some ==> r is Ok ,
+/*@C13.hll.hdr.accepts*/ hdr_ok ( bytes @ ) && dispatch_accepts ( bytes @ ) ==> r is Ok ,
 /*@C13.hll.hdr.lg_k*/ r matches Ok ( s ) ==> s . lg_config_k == bytes @ [ 3 ] ,
-/*@C13.hll.hdr.dispatch*/ r matches Ok ( s ) ==> Some ( s . mode ) == dispatch ( bytes @ ) , {
+/*@C13.hll.hdr.dispatch*/ r matches Ok ( s ) ==> dispatch_parsed ( bytes @ , s . mode ) , {
 let mut cursor = SketchSlice :: new ( bytes ) ;
 let ghost b = bytes @ ;
 let preamble_ints = cursor . read_u8 ( ) . vx_io ( "preamble_ints" ) ? ;
@@ -271,7 +299,7 @@ return Err ( vx_err_deserial ( ) ) ;
 match hll_type {
 HllType :: Hll4 => {
 let cur_min = state ;
-vx_map_array4 ( Array4 :: deserialize ( cursor , cur_min , lg_config_k , compact , ooo ) ) ? }
+vx_map_array4 ( Array4 :: deserialize ( cursor , cur_min , lg_config_k , compact , ooo , Ghost ( lg_arr ) ) ) ? }
 HllType :: Hll6 => vx_map_array6 ( Array6 :: deserialize ( cursor , lg_config_k , compact , ooo ) ) ? , HllType :: Hll8 => vx_map_array8 ( Array8 :: deserialize ( cursor , lg_config_k , compact , ooo ) ) ? , }
 }
 mode => return Err ( vx_err_deserial ( ) ) , }
